@@ -104,6 +104,16 @@ var mapSources = []string{
 	`function(doc, meta) { if (doc !== null && typeof doc === "object" && typeof doc.a === "number") { emit([doc.a, 1], null); emit([doc.a, meta.id], null); } }`,
 }
 
+type sgbucketDesignDoc = sgbucket.DesignDoc
+
+func mkDesignDoc(views []ViewDef) *sgbucket.DesignDoc {
+	dd := sgbucket.DesignDoc{Language: "javascript", Views: sgbucket.ViewMap{}}
+	for _, v := range views {
+		dd.Views[v.Name] = sgbucket.ViewDef{Map: mapSources[v.Map]}
+	}
+	return &dd
+}
+
 type kvInput struct {
 	OnDisk  bool   `json:"on_disk"`
 	Handles int    `json:"handles"`
@@ -1171,13 +1181,11 @@ func execKvInner(in kvInput, scratch string, prog *kvProgress) (Case, error) {
 			switch st.Kind {
 			case "putddoc":
 				var vts []any
-				dd := sgbucket.DesignDoc{Language: "javascript", Views: sgbucket.ViewMap{}}
 				for _, v := range st.Views {
 					vts = append(vts, P(S(v.Name), N(uint64(v.Map))))
-					dd.Views[v.Name] = sgbucket.ViewDef{Map: mapSources[v.Map]}
 				}
 				opT = C("SPutDDoc", S(st.Coll), S(st.DDoc), L(vts...))
-				if e := col.PutDDoc(ctxBg, st.DDoc, &dd); e != nil {
+				if e := col.PutDDoc(ctxBg, st.DDoc, mkDesignDoc(st.Views)); e != nil {
 					respT = rErr(e)
 				} else {
 					respT = C("ROk")
